@@ -45,3 +45,10 @@ MANIFEST_ENTRY = {
 
 MANIFEST_ENTRY['text'] += " The array-cache key is proved to hold the selection object itself (not a number standing for it) and a bounds entry that is not the caller's own list."
 TRUSTED_BASE.append('id(obj) is an opaque number per object that keeps nothing alive: a key made of it is not the object')
+
+MANIFEST_ENTRY['text'] += (" The image layer's view-to-bounds helper (slice_to_bound, nested in BaseImageLayerState.get_sliced_data) is proved, for every size, start, stop and steps None / 1-8 (1-16 thorough), to give "
+                           "(first selected pixel, last selected pixel, number of selected pixels) for a non-empty view with a positive step.")
+MANIFEST_ENTRY['technique'] = MANIFEST_ENTRY['technique'].replace("of the cache-key helpers and of ", "of the cache-key helpers, of the image layer's view-to-bounds arithmetic and of ")
+TRUSTED_BASE.append("slice_to_bound contract: slice.indices model (pyvc spec), mathematical integers; the nested function is located in the text of get_sliced_data on every run")
+ASSUMPTIONS.append("slice_to_bound is under contract for views with a positive step that select at least one pixel; an empty view (negative count) and negative steps are outside the contract and not claimed; "
+                   "the rest of get_sliced_data (aggregation, transpose) is covered by the bounded image-layer sweep only")
